@@ -102,6 +102,10 @@ fn perturbations(cfg: &Cfg, rounds: usize, ctx: &CtxSpec, promises: &[Option<u64
         // stay inside the bit length so the verifier does not refuse before drawing challenges
         let how = if p < mask_of(cfg.bits) { PromHow::Plus1 } else { PromHow::Minus1 };
         v.push(st(format!("promise[{}]", j.min(3)), StMut::Promise { j: fj, how }));
+        // single bit flips of the promise, the top bit of the range included
+        for bit in [cfg.bits - 1, (rep as usize >> 4) % cfg.bits] {
+            v.push(st(format!("promise[{}]:bit", j.min(3)), StMut::Promise { j: fj, how: PromHow::FlipBitInRange(bit as u8) }));
+        }
         let mut eq = st(
             format!("promise[{}]:None<->Some(0)", j.min(3)),
             StMut::Promise {
@@ -363,6 +367,30 @@ pub fn oracle<E: Engine>(_ctx: &RunCtx, spec: &FsSpec, log: &mut CaseLog) -> Res
                         log.label(format!("perturb-prover:{}", p.name.split('[').next().unwrap()));
                     }
                 }
+            }
+        }
+    }
+    // two statements that differ in ONE commitment although both contain a run of equal neighbours:
+    // [C0, C1, C1, ..] versus [C0, C0, C1, ..] (a transcript that collapses repeated points absorbs the same sequence)
+    if cfg.m >= 3 {
+        let mut ps1 = ps0.clone();
+        ps1.commitments[2] = ps1.commitments[1].clone();
+        let mut ps2 = ps1.clone();
+        ps2.commitments[1] = ps2.commitments[0].clone();
+        if ps1.commitments[1] != ps2.commitments[1] {
+            if let (Ok(st1), Ok(st2)) = (ps1.statement(None), ps2.statement(None)) {
+                let c1 = verifier_challenges::<E>(&pre, &st1, &proof, &ps1.ctx, pre_counts)?;
+                let c2 = verifier_challenges::<E>(&pre, &st2, &proof, &ps2.ctx, pre_counts)?;
+                for i in 0..c1.len().min(c2.len()) {
+                    if c1[i] == c2[i] {
+                        return Err(format!(
+                            "verifier: challenge {} is UNCHANGED between commitment vectors [C0,C1,C1,..] and [C0,C0,C1,..] (they differ in commitment 1; aggregation {})",
+                            i, cfg.m
+                        ));
+                    }
+                }
+                done += 1;
+                log.label("perturb:commitment-in-run-of-equal-neighbours");
             }
         }
     }
